@@ -162,15 +162,27 @@ def ossl_pubcheck(cv, point_bytes):
     raise MachineryError("openssl pkey -pubcheck: unexpected answer rc=%d %r %r" % (rc, out[-200:], err[-200:]))
 
 
-def ossl_verify(hname, pub_path, sig, msg, files):
-    """'accept' / 'reject' of `openssl dgst -<h> -verify`"""
+def ossl_verify(hname, pub_path, sig, msg, files, maxlen=None):
+    """'accept' / 'reject' of `openssl dgst -<h> -verify`.
+    `openssl dgst` reads at most EVP_PKEY_size bytes of the signature file (an over-long signature would be judged
+    by its prefix) and refuses an empty file before verifying; those two input classes go to
+    `openssl pkeyutl -verify`, which reads the whole file, with the digest computed by hashlib."""
+    import hashlib
     sp = files.put(sig, "s")
-    rc, out, err = ossl(["dgst", "-" + hname, "-verify", pub_path, "-keyform", "DER", "-signature", sp], msg)
-    os.unlink(sp)
+    try:
+        if len(sig) == 0 or (maxlen is not None and len(sig) > maxlen):
+            rc, out, err = ossl(["pkeyutl", "-verify", "-pubin", "-inkey", pub_path, "-keyform", "DER", "-sigfile", sp],
+                                getattr(hashlib, hname)(msg).digest())
+            if rc == 0 and out.startswith(b"Signature Verified Successfully"):
+                return "accept"
+            if b"Signature Verification Failure" in out + err:
+                return "reject"
+            raise MachineryError("openssl pkeyutl -verify: unexpected answer rc=%d %r %r" % (rc, out[-200:], err[-300:]))
+        rc, out, err = ossl(["dgst", "-" + hname, "-verify", pub_path, "-keyform", "DER", "-signature", sp], msg)
+    finally:
+        os.unlink(sp)
     if rc == 0 and out.startswith(b"Verified OK"):
         return "accept"
-    if len(sig) == 0 and b"Error reading signature file" in err:
-        return "reject"
     if b"Verification failure" in out + err or b"Error verifying data" in out + err or b"Verification Failure" in out + err:
         return "reject"
     raise MachineryError("openssl dgst -verify: unexpected answer rc=%d %r %r" % (rc, out[-200:], err[-300:]))
@@ -196,12 +208,13 @@ def validate_many(jobs, wd, total_shards=16, timeout=1500):
     sharing ~total_shards single-worker JVMs in proportion to the event counts.
     Returns {label: (rejections, stats)}."""
     jobs = [j for j in jobs if j[3]]
-    tot = sum(len(j[3]) for j in jobs) or 1
+    cost = lambda evs: sum(e.get("_cost", 1) for e in evs) + 2000          # + JVM start
+    tot = sum(cost(j[3]) for j in jobs) or 1
     res = {}
 
     def one(j):
         label, mod, cfg, evs = j
-        sh = max(1, min(total_shards, round(total_shards * len(evs) / tot)))
+        sh = max(1, min(total_shards, round(total_shards * cost(evs) / tot)))
         return label, tlc.validate_trace(os.path.join(SPEC, mod + ".tla"), cfg, evs, os.path.join(wd, "tv_" + label),
                                          shards=sh, timeout=timeout)
 
